@@ -126,7 +126,7 @@ func (v *ScriptView) writeCreateSQLForAColumn(attrType *sysl.Type, tableName, at
 	if isPrimaryKey {
 		*primaryKeys = append(*primaryKeys, attrName)
 	}
-	if typeRef := attrType.GetTypeRef(); typeRef != nil {
+	if typeRef := attrType.GetTypeRef(); typeRef != nil && len(typeRef.GetRef().GetPath()) >= 2 {
 		path0 := typeRef.GetRef().Path[0]
 		path1 := typeRef.GetRef().Path[1]
 		datatype := visitedAttributes[path0+"."+path1]
